@@ -1,31 +1,24 @@
 import PeliteModel.Driver.Pure
 import PeliteModel.Driver.Image
+-- IMPORT-MARKER (add `import PeliteModel.Driver.<M>` above this line)
 /-! `model`: the line-protocol driver.  One answer line per operation line; the part after ` ## `
 is the executable specification's answer and whether the input meets the theorem's hypotheses. -/
 open Pelite Pelite.Driver
 
-structure St where
-  img : Option Img := none
+def handlers : List Handler := [
+  dispatchPure,
+  dispatchImage
+  -- HANDLER-MARKER (add `, dispatch<M>` above this line)
+  ]
 
 def step (st : St) (line : String) : St × String :=
   match line.splitOn " " with
   | ["img", al, _flush, hx] => ({ st with img := some ⟨Proto.unhex hx, Proto.num al⟩ }, "ok")
-  | "strings" :: a => (st, strings a)
-  | "relocs_raw" :: a => (st, relocsRaw a)
-  | "relocs_build" :: a => (st, relocsBuild a)
-  | ["from_bytes", k] => (st, fromBytesOp st.img k)
-  | ["hdr", k] => (st, hdr st.img k)
-  | ["hdrw", k] => (st, hdrw st.img k)
-  | "r2f" :: a => (st, addr st.img "r2f" a)
-  | "f2r" :: a => (st, addr st.img "f2r" a)
-  | "r2v" :: a => (st, addr st.img "r2v" a)
-  | "v2r" :: a => (st, addr st.img "v2r" a)
-  | "slice" :: a => (st, sliceOp st.img a)
-  | "read" :: a => (st, readOp st.img a)
-  | "secbytes" :: a => (st, secbytes st.img a)
-  | "byrva" :: a => (st, bysec st.img "byrva" a)
-  | "byname" :: a => (st, bysec st.img "byname" a)
-  | _ => (st, "bad-op")
+  | fam :: a =>
+    match handlers.findSome? (fun h => h st fam a) with
+    | some ans => (st, ans)
+    | none => (st, "bad-op")
+  | [] => (st, "bad-op")
 
 partial def loop (h : IO.FS.Stream) (out : IO.FS.Stream) (st : St) : IO Unit := do
   let line ← h.getLine
